@@ -34,7 +34,7 @@ WATCH_FNS = ('ncomp_from_gmm', '_setup_prms', 'metarize', 'tmp_seed', 'find_grou
 
 
 class ThreadSim:
-    def __init__(self, jobs, sched, step_caps=None, census=None, inject=None, join_timeout=120):
+    def __init__(self, jobs, sched, step_caps=None, census=None, inject=None, join_timeout=600):
         self.jobs = jobs
         self.n = len(jobs)
         self.sched = sched
